@@ -26,6 +26,10 @@ func newMIDPool(min, max int32) midPool {
 	return &simpleMidPool{
 		min: min,
 		max: max,
+		// intervals are half-open: (from, to] is free.
+		intervals: []interval{
+			{from: min - 1, to: max},
+		},
 	}
 }
 
@@ -33,12 +37,7 @@ func (m *simpleMidPool) Get() int32 {
 	m.mtx.Lock()
 	defer m.mtx.Unlock()
 	if len(m.intervals) == 0 {
-		m.intervals = []interval{
-			{from: m.min, to: m.max},
-		}
-		return m.min
-	}
-	if m.intervals[0].from == m.max {
+		// every id is in use
 		return -1
 	}
 	m.intervals[0].from++
@@ -55,43 +54,29 @@ func (m *simpleMidPool) Put(mid int32) {
 	m.mtx.Lock()
 	defer m.mtx.Unlock()
 
+	// idx is the first free interval ending at or after mid.
 	idx := sort.Search(len(m.intervals), func(i int) bool {
-		return m.intervals[i].from >= mid
+		return m.intervals[i].to >= mid
 	})
-	if idx < len(m.intervals) && (m.intervals[idx].from < mid && m.intervals[idx].to >= mid) {
+	if idx < len(m.intervals) && m.intervals[idx].from < mid {
+		// already free
 		return
 	}
-
-	if idx == len(m.intervals) {
-		if m.intervals[idx-1].from < mid && m.intervals[idx-1].to >= mid {
-			return
-		}
-		if m.intervals[idx-1].to == mid-1 {
-			m.intervals[idx-1].to++
-		} else {
-			if mid > m.intervals[idx-1].to {
-				m.intervals = append(m.intervals, interval{from: mid - 1, to: mid})
-			} else {
-				m.intervals = append(m.intervals[:idx-1], interval{from: mid - 1, to: mid}, m.intervals[idx-1])
-			}
-		}
-	} else if idx > 0 && idx != len(m.intervals) {
-		if m.intervals[idx].to == mid-1 {
-			m.intervals[idx].to++
-		} else if m.intervals[idx-1].to == mid-1 {
-			m.intervals[idx-1].to++
-			if m.intervals[idx-1].to == m.intervals[idx].from {
-				m.intervals[idx].from = m.intervals[idx-1].from
-				m.intervals = append(m.intervals[:idx-1], m.intervals[idx:]...)
-			}
-		} else {
-			m.intervals = append(m.intervals[:idx], append([]interval{{from: mid - 1, to: mid}}, m.intervals[idx:]...)...)
-		}
-	} else {
-		if m.intervals[0].from == mid {
-			m.intervals[idx].from--
-		} else {
-			m.intervals = append([]interval{{from: mid - 1, to: mid}}, m.intervals...)
-		}
+	// mid lies in the gap before intervals[idx]: grow a neighbour, join both
+	// neighbours, or insert a new interval.
+	extendsPrevious := idx > 0 && m.intervals[idx-1].to == mid-1
+	extendsNext := idx < len(m.intervals) && m.intervals[idx].from == mid
+	switch {
+	case extendsPrevious && extendsNext:
+		m.intervals[idx-1].to = m.intervals[idx].to
+		m.intervals = append(m.intervals[:idx], m.intervals[idx+1:]...)
+	case extendsPrevious:
+		m.intervals[idx-1].to = mid
+	case extendsNext:
+		m.intervals[idx].from = mid - 1
+	default:
+		m.intervals = append(m.intervals, interval{})
+		copy(m.intervals[idx+1:], m.intervals[idx:])
+		m.intervals[idx] = interval{from: mid - 1, to: mid}
 	}
 }
